@@ -161,10 +161,25 @@ def methods(H, rng):
         m["nodes.duplicates"] = lambda: H.nodes.duplicates()
         m["nodes.average_neighbor_degree"] = lambda: H.nodes.average_neighbor_degree.asdict()
         m["nodes.clustering_coefficient"] = lambda: H.nodes.clustering_coefficient.asdict()
+    # every method with an in_place parameter, called with in_place=False: defaults, then each boolean option flipped
+    import inspect as _insp
+    for mname in dir(type(H)):
+        if mname.startswith("_"):
+            continue
+        meth = getattr(H, mname, None)
+        try:
+            ps = _insp.signature(meth).parameters if callable(meth) else {}
+        except (TypeError, ValueError):
+            ps = {}
+        if "in_place" not in ps:
+            continue
+        bools = [q for q, par in ps.items() if q != "in_place" and isinstance(par.default, bool)]
+        m[f"{mname}(in_place=False)"] = lambda meth=meth: meth(in_place=False)
+        for q in bools:
+            m[f"{mname}({q}={not ps[q].default}, in_place=False)"] = lambda meth=meth, q=q, val=not ps[q].default: meth(in_place=False, **{q: val})
     if type(H) is xgi.Hypergraph:
         m["dual"] = lambda: H.dual()
         m["<<"] = lambda: H << xgi.Hypergraph([[0, "q"]])
-        m["cleanup(in_place=False)"] = lambda: H.cleanup(in_place=False)
         m["merge_duplicate_edges? no: in place"] = lambda: None
         m["convert_labels_to_integers(in_place=False)"] = lambda: xgi.convert_labels_to_integers(H, in_place=False)
         m["largest_connected_hypergraph(in_place=False)"] = lambda: xgi.largest_connected_hypergraph(H, in_place=False)
